@@ -66,7 +66,7 @@ var propertyCanaries = map[string][]string{
 	"C08": {"STRIDE.fullrange", "BETA.scaleguard", "CONSTFOLD.underflow", "ASM.lost", "PARAMUSE.read", "ASM.window", "ASM.tail", "ASM.units", "STRIDE.extent", "SIB.guards"},
 	"C09": {"GOPROTO.latch", "GOPROTO.lockexit", "RAW.stride", "GOPROTO.accumzero", "GOPROTO.semcap", "GOPROTO.scratch", "GLOBAL.write", "GOPROTO.capture", "GOPROTO.lockpair", "GOPROTO.sibling", "POOL.uaf"},
 	"C12": {"GRAPHINV.mapinit", "GRAPHINV.relit", "GRAPHINV.together", "GRAPHINV.expose", "SWAP.cond", "GRAPHINV.prune", "TWIN.sibguard", "GRAPHINV.panicorder", "GRAPHINV.absent", "GRAPHINV.iterreset", "GRAPHINV.converse", "GRAPHINV.uid", "GRAPHINV.iter", "TWIN.sibstate"},
-	"C16": {"ERR.overwrite", "ERR.swallow", "RESET.revive", "DECODE.order", "DECODE.errdrop", "DECODE.mul", "DECODE.selfcmp", "DECODE.clone", "DECODE.fields"},
+	"C16": {"NILGUARD.sibling", "ERR.overwrite", "ERR.swallow", "RESET.revive", "DECODE.order", "DECODE.errdrop", "DECODE.mul", "DECODE.selfcmp", "DECODE.clone", "DECODE.fields"},
 	"C17": {"GLOBAL.state", "CMPLX.parts", "RESET.noleak", "GLOBAL.write", "RESET.fields", "WINDOW.pointwise"},
 	"C18": {"ERR.overwrite", "ERR.swallow", "SETTINGS.readonly", "RAW.stride", "SWAP.cond", "GOPROTO.accumzero", "CONST.stencil", "GOPROTO.sibling"},
 	"C19": {"INIT.complete", "GOPROTO.latch", "ERR.overwrite", "ERR.swallow", "SETTINGS.readonly", "OPT.maskpair", "ALIAS.config", "OPT.limits", "GOPROTO.scratch", "GOPROTO.run", "INIT.state"},
@@ -133,6 +133,7 @@ func init() {
 		{"GRAPHINV.relit", "graph/simple/simple.go", "return WeightedEdge{F: e.T, T: e.F, W: e.W}", "return WeightedEdge{F: e.T, T: e.F}", func() *core.Result { return graphinv.RunRelit(def, "./graph/simple", "./graph/multi") }},
 		{"GLOBAL.state", "dsp/transform/hilbert.go", "// Hilbert implements", "var hilbertCache = map[int]*Hilbert{}\n\n// Hilbert implements", func() *core.Result { return globalx.RunDecls(def, core.Pkgs("./dsp/transform"), nil) }},
 		{"GRAPHINV.mapinit", "graph/multi/undirected.go", "\tcase g.lineIDs[xid] == nil:\n\t\tuids := uid.NewSet()\n\t\tlineID = uids.NewID()\n\t\tg.lineIDs[xid] = map[int64]*uid.Set{yid: uids}", "\tcase g.lineIDs[xid][yid] == nil:\n\t\tuids := uid.NewSet()\n\t\tlineID = uids.NewID()\n\t\tg.lineIDs[xid] = map[int64]*uid.Set{yid: uids}", func() *core.Result { return graphinv.RunMapInit(def, "./graph/multi") }},
+		{"NILGUARD.sibling", "graph/encoding/dot/decode.go", "\t\t\tif gen.edgeAttr == nil {\n\t\t\t\treturn\n\t\t\t}\n\t\t\tn = gen.edgeAttr", "\t\t\tif gen.nodeAttr == nil {\n\t\t\t\treturn\n\t\t\t}\n\t\t\tn = gen.edgeAttr", func() *core.Result { return decode.RunNilGuard(def, core.Pkgs("./graph/encoding/dot")) }},
 		{"BETA.noread", "blas/gonum/level3float64.go", "\tif beta == 0 {\n\t\tfor i := 0; i < m; i++ {\n\t\t\tctmp := c[i*ldc : i*ldc+n]\n\t\t\tfor j := range ctmp {\n\t\t\t\tctmp[j] = 0", "\tif beta == 0 {\n\t\tfor i := 0; i < m; i++ {\n\t\t\tctmp := c[i*ldc : i*ldc+n]\n\t\t\tfor j := range ctmp {\n\t\t\t\tctmp[j] *= beta", func() *core.Result { return flagx.RunBetaZero(def, core.Pkgs("./blas/gonum")) }},
 		{"GUARD.operand", "lapack/gonum/dbdsqr.go", "if ncc > 0 {\n\t\t\t\timpl.Dlasr(blas.Left, lapack.Variable, lapack.Forward, n, ncc, work, work[n-1:], c, ldc)", "if nru > 0 {\n\t\t\t\timpl.Dlasr(blas.Left, lapack.Variable, lapack.Forward, n, ncc, work, work[n-1:], c, ldc)", func() *core.Result { return flagx.RunGuardOperand(def, core.Pkgs("./lapack/gonum")) }},
 		{"GOPROTO.scratch", "optimize/minimize.go", "\tworker := func() {\n\t\tx := make([]float64, dim)\n", "\tx := make([]float64, dim)\n\tworker := func() {\n", func() *core.Result { return goproto.Run(def, core.Pkgs("./optimize")) }},
